@@ -19,6 +19,7 @@
  *   EPOLL <h>:<IN|OUT|INOUT|ERR|HUP|INHUP> ...   explicit batch (h = c<N> | t<N> | l<jet|http|uds>)
  *   ALLOCFAIL <n>                  the n-th allocation from now fails (1 = next)
  *   EPCTLFAIL <n>                  the n-th EPOLL_CTL_ADD from now fails with ENOSPC
+ *   TIMERFAIL <n>                  the n-th timerfd_create from now fails with EMFILE
  *   JUNK <byte>                    fill pattern for fresh allocations
  *   REPLY c<N> <k> <hex>           c<N> answers the k-th routed request it received: {"id":<that id>,<member text>}
  *   REPLY c<N> <k1,k2,..> <hex> [arr]   the same answer for several requests (or one, with "arr") as ONE JSON array
@@ -117,6 +118,7 @@ static int last_fd_event = -1;
 
 static long alloc_fail_in = 0;
 static long epctl_fail_in = 0;
+static long timer_fail_in = 0;     /* TIMERFAIL <n>: the n-th timerfd_create from now fails with EMFILE */
 extern void __sanitizer_print_stack_trace(void);
 static int junk_byte = -1;
 static unsigned long n_allocs = 0;
@@ -543,6 +545,11 @@ ssize_t __wrap_writev(int fd, const struct iovec *iov, int cnt)
 int __wrap_timerfd_create(int clockid, int flags)
 {
 	(void)clockid; (void)flags;
+	if (timer_fail_in > 0 && --timer_fail_in == 0) {
+		out("TIMERFAILED");
+		errno = EMFILE;
+		return -1;
+	}
 	int fd = new_fd(K_TIMER);
 	fds[fd].handle = n_timers;
 	timer_fd_of[n_timers++] = fd;
@@ -1057,6 +1064,7 @@ static bool exec_line(char *line)
 	}
 	if (strcmp(cmd, "ALLOCFAIL") == 0 && a1) { alloc_fail_in = atol(a1); return false; }
 	if (strcmp(cmd, "EPCTLFAIL") == 0 && a1) { epctl_fail_in = atol(a1); return false; }
+	if (strcmp(cmd, "TIMERFAIL") == 0 && a1) { timer_fail_in = atol(a1); return false; }
 	if (strcmp(cmd, "JUNK") == 0 && a1) { junk_byte = atoi(a1) & 255; return false; }
 	if (strcmp(cmd, "QUIESCE") == 0) { snapshot("SNAP"); return false; }
 	if (strcmp(cmd, "TERM") == 0) { terminated = true; return false; }
